@@ -75,7 +75,7 @@ def M(what):
 
 
 PROPS = {
-    "C01": [S("C01")],
+    "C01": [S("C01"), K("c01")],
     "C02": [S("C02")],
     "C03": [S("C03")],
     "C04": [S("C04")],
@@ -83,13 +83,21 @@ PROPS = {
     "C06": [S("C06")],
     "C07": [S("C07")],
     "C08": [S("C08")],
-    "C09": [S("C09")],
+    "C09": [S("C09"), K("c09")],
     "C10": [S("C10")],
     "C11": [S("C11")],
     "C12": [S("C12")],
-    "C15": [S("C15")],
-    "C19": [M("C19")],
+    "C13": [S("C13"), K("c13")],
+    "C14": [S("C14"), K("c14")],
+    "C15": [S("C15"), K("c15")],
+    "C16": [S("C16"), K("c16")],
+    "C17": [K("c17")],
+    "C18": [S("C18"), K("c18")],
+    "C19": [M("C19"), K("c19")],
 }
+# K steps can be switched off for experiments (VERIF_SKIP_K=1); registered commands never set it
+if os.environ.get("VERIF_SKIP_K") == "1":
+    PROPS = {k: [s for s in v if s[0] != "K"] for k, v in PROPS.items()}
 
 
 def known_findings():
